@@ -327,6 +327,20 @@ func runC10(r *Run) {
 			{Kind: "OSet", P: 2, S: sa(st, 3)}, {Kind: "OSet", P: 1, S: sa(st, 4)},
 		}, "corpus")
 	}
+	// corpus: WithSkip keeps one child per n whatever SetSkip did to that child since; SetSkip back to 0;
+	// the package default level set after the default logger's own level was set to the same value
+	lv := func(l int) *SetOp { return &SetOp{Kind: "SLevel", L: l} }
+	c10One(r, snap, []Op{
+		{Kind: "ONew", P: 0, Name: &n1}, {Kind: "OWithSkip", P: 1, N: 1}, {Kind: "OSetSkip", P: 2, N: 2}, {Kind: "OWithSkip", P: 1, N: 2},
+		{Kind: "OWithSkip", P: 1, N: 1}, {Kind: "OWithSkip", P: 1, N: 0}, {Kind: "OSetSkip", P: 2, N: 0}, {Kind: "OWithSkip", P: 1, N: 0},
+		{Kind: "OSetSkip", P: 1, N: 3}, {Kind: "OSetSkip", P: 1, N: 0}, {Kind: "OWithSkip", P: 1, N: 2},
+	}, "corpus")
+	for _, l := range []int{2, 4, 6} {
+		c10One(r, snap, []Op{
+			{Kind: "OSet", P: 0, S: lv(l)}, {Kind: "OPkgSetLevel", N: l}, {Kind: "ONewPkg", Name: &n1}, {Kind: "ONewPkg"},
+			{Kind: "OPkgSetLevel", N: 3}, {Kind: "OSet", P: 0, S: lv(5)}, {Kind: "OPkgSetLevel", N: 5}, {Kind: "ONewPkg", Name: &n2},
+		}, "corpus")
+	}
 	for i := r.N(300, 8000); i > 0; i-- {
 		ops := genTreeOps(r.R, TreeProfile{MaxOps: 40})
 		c10One(r, snap, ops, "random")
